@@ -26,6 +26,26 @@ impl MapVal {
     m.set_debug_id(self.debug_id.clone());
     m
   }
+  /// The same value reached through the setters, starting from a map that holds other tables.
+  pub fn build_via_setters(&self, base_has_tables: bool) -> (SourceMap, SourceMap) {
+    let mut m = if base_has_tables {
+      let mut b = SourceMap::new(self.mappings.clone(), vec!["old.js".to_string(), "old2.js".into()], vec!["old content".to_string(), "x".into()], vec!["oldname".to_string()]);
+      b.set_file(Some("old-file"));
+      b.set_source_root(Some("old-root"));
+      b.set_debug_id(Some("old-id"));
+      b
+    } else {
+      SourceMap::new(self.mappings.clone(), Vec::<String>::new(), Vec::<String>::new(), Vec::<String>::new())
+    };
+    let before = m.clone();
+    m.set_sources(self.sources.clone());
+    m.set_sources_content(self.contents.clone());
+    m.set_names(self.names.clone());
+    m.set_file(self.file.clone());
+    m.set_source_root(self.root.clone());
+    m.set_debug_id(self.debug_id.clone());
+    (m, before)
+  }
   pub fn of(m: &SourceMap) -> MapVal {
     MapVal {
       file: m.file().map(|s| s.to_string()),
@@ -74,6 +94,29 @@ pub fn c15_value(ctx: &mut Ctx, v: &MapVal) {
     }
     Ok(Err(e)) => fail(ctx, "to_writer_error", format!("{e}")),
     Err(e) => fail(ctx, "to_writer_panic", e),
+  }
+  // "every SourceMap value": the same value reached through the setters from a map holding other
+  // tables (and from an empty one) answers and serialises identically; a clone taken before keeps its own
+  for base_has_tables in [true, false] {
+    ctx.transitions += 7;
+    match guarded(|| {
+      let (m2, before) = v.build_via_setters(base_has_tables);
+      let before_val = MapVal::of(&before);
+      (MapVal::of(&m2), m2 == m, m2.clone().to_json().map_err(|e| e.to_string()), before_val)
+    }) {
+      Err(p) => fail(ctx, "setter_panic", p),
+      Ok((got, eq, js, before_val)) => {
+        if got != *v || !eq {
+          fail(ctx, "value_built_with_setters_differs", format!("base_has_tables={base_has_tables}: accessors give {got:?} (== value built by new: {eq}), set was {v:?}"));
+        }
+        if js.as_deref() != Ok(json_text.as_str()) {
+          fail(ctx, "value_built_with_setters_serialises_differently", format!("base_has_tables={base_has_tables}: {js:?} vs {json_text:?}"));
+        }
+        if base_has_tables && (before_val.sources != ["old.js", "old2.js"] || before_val.contents != ["old content", "x"] || before_val.names != ["oldname"] || before_val.file.as_deref() != Some("old-file")) {
+          fail(ctx, "setter_changed_a_clone", format!("{before_val:?}"));
+        }
+      }
+    }
   }
   // the same document through writers that accept only a few bytes per call (allowed by the Write
   // contract) and through one that is full after half of it
